@@ -34,7 +34,7 @@ EXC_PARENTS = {
     "ValueError": "Exception", "TypeError": "Exception", "StopIteration": "Exception",
     "AssertionError": "Exception", "AttributeError": "Exception", "OverflowError": "ArithmeticError",
     "ArithmeticError": "Exception", "UnicodeDecodeError": "ValueError", "NotImplementedError": "RuntimeError",
-    "RuntimeError": "Exception", "Exception": "BaseException", "PbDecodeError": "Exception",
+    "RuntimeError": "Exception", "Exception": "BaseException", "PbDecodeError": "Exception", "StructError": "Exception",
 }
 
 
@@ -1659,6 +1659,8 @@ class Engine:
         return self.call_function(m, [obj] + args, kwargs, st, self_cls=obj.cls)
 
     def call_function(self, fi, args, kwargs, st, closure=None, self_cls=None, force_inline=False):
+        if getattr(fi, "foreign_decorators", None):
+            raise Unsupported("call to %s, which is decorated with %s" % (fi.qual, ", ".join(fi.foreign_decorators)))
         cc = self.cur_contract
         if cc is not None and ((fi.file + "::" + fi.qual) in getattr(cc, "inline_callees", ())
                                or (getattr(cc, "inline_all", False)
